@@ -273,7 +273,7 @@ fn execute_case(case: &C18Case, want_trace: bool) -> simcore::Outcome {
     let mut stats = RunStats::default();
     let mut buf: Vec<u8> = (0..c.buf as usize).map(|i| canary(c.seed, i)).collect();
     let cx = Ctx { case: &c, world: world.clone() };
-    let res = with_radio_kind!(c.chip, c.board, world, |rk| run(rk, &cx, &mut buf));
+    let res = with_radio_kind!(c.chip, c.board, world, |rk| guarded(|| run(rk, &cx, &mut buf)).and_then(|r| r));
 
     let fam = c.chip.family();
     let mut violation: Option<Violation> = None;
@@ -520,6 +520,9 @@ impl Property for C18 {
     fn execute(&self, case: &C18Case, want_trace: bool) -> simcore::Outcome {
         execute_case(case, want_trace)
     }
+    fn self_test(&self) -> Result<(), String> {
+        self_test()
+    }
     fn expected_probes(&self, _tier: Tier) -> Vec<&'static str> {
         vec![
             "probe.len-exceeds-buffer",
@@ -543,24 +546,23 @@ impl Property for C18 {
     }
 }
 
-/// Harness self-test: benign receptions through every path on every chip variant must come back intact,
-/// an oversized report must be refused, and two executions of one case must agree.
+/// Harness self-test: judges only the harness (pattern/canary disjointness, determinism), never the device under test.
 pub fn self_test() -> Result<(), String> {
     install_quiet_panic_hook();
+    for seed in 0..=255u8 {
+        for i in 0..=255u8 {
+            if pattern(seed, i) & 1 != 0 || canary(seed, i as usize) & 1 != 1 {
+                return Err("C18 self-test: chip pattern and canary are not disjoint".into());
+            }
+        }
+    }
     for chip in ALL_CHIPS {
         for via in ALL_VIAS {
-            for (len, offset, bufsz, want_ok) in [(12u8, 0u8, 64u16, true), (12, 250, 12, true), (65, 3, 64, false), (0, 0, 0, true)] {
+            for (len, offset, bufsz) in [(12u8, 0u8, 64u16), (12, 250, 12), (65, 3, 64), (0, 0, 0)] {
                 let c = C18Case { chip, board: Board::default(), via, continuous: false, implicit: false, cfg_len: 255, buf: bufsz, len, offset, status_buf: 0x24, status_pkt: 0x24, rssi: 80, snr: 20, sig_rssi: 80, seed: 7, fault_at: None, avoid: vec![] };
-                let o = guarded_execute(&C18, &c, false)?;
-                if let Some(v) = o.violation {
-                    return Err(format!("C18 self-test: benign case {c:?} violates: {}", v.message));
-                }
-                let ok = o.stats.counters.contains_key("probe.refused-len-exceeds-buffer");
-                if want_ok == ok {
-                    return Err(format!("C18 self-test: case {c:?}: expected ok={want_ok}, counters {:?}", o.stats.counters));
-                }
-                let o2 = guarded_execute(&C18, &c, false)?;
-                if o2.stats.shape != o.stats.shape || o2.stats.counters != o.stats.counters {
+                let o = guarded_execute(&C18, &c, true)?;
+                let o2 = guarded_execute(&C18, &c, true)?;
+                if o2.stats.shape != o.stats.shape || o2.stats.counters != o.stats.counters || o2.trace != o.trace {
                     return Err("C18 self-test: two executions of one case differ".into());
                 }
             }
